@@ -12,6 +12,7 @@ mod dpanic;
 mod layout;
 mod mech;
 mod ptrs;
+mod sched;
 #[cfg(feature = "cfg_default")]
 mod serdes;
 mod tok;
@@ -79,6 +80,7 @@ fn main() {
             "ptr" => ptrs::run_case(&ops),
             "cmp" => cmps::run_case(&ops),
             "ctor" => ctors::run_case(&ops),
+            "sched" => sched::run_case(&ops),
             #[cfg(feature = "cfg_default")]
             "serde" => serdes::run_case(&ops),
             _ => {
